@@ -139,6 +139,11 @@ def rule_b(ctx):
     ctx.ob("epoch-counter-only-grows", len(writers) == 2 and not bad,
            "next_epoch is written only by the `+= 1` of insert (never reset or rewound: an epoch, and hence an InsertKey or a FIFO rank, "
            "is never issued twice)", bad or writers)
+    # ... and no live queue is ever replaced wholesale (`*self = Self::new()`, mem::take, ..), which would rewind the counter too
+    ow = K.whole_value_overwrites(P, {PQ + "PriorityQueue", IPQ + "IndexedPriorityQueue"}, skip=lambda b: "::tests" in b.name)
+    ctx.ob("queue-never-replaced-in-place", not ow,
+           "no statement overwrites a live PriorityQueue / IndexedPriorityQueue as a whole (that would reset next_epoch and re-issue "
+           "epochs / InsertKeys)", ow or writers)
     nb = ctx.body(PQ + "PriorityQueue::new")
     if nb:
         aggs = list(nb.aggregates(adt=PQ + "PriorityQueue"))
